@@ -468,6 +468,25 @@ class Check:
         return 0
 
 
+@contextlib.contextmanager
+def client_logging(i):
+    """Process-level state that belongs to the CLIENT: how verbose it wants the library's logger to be.  Cycles through
+    'as found', silenced (CRITICAL) and DEBUG (to no handler of ours); what the library returns, refuses or writes must
+    not depend on it.  Restored on exit."""
+    import logging
+
+    log = logging.getLogger("pydrex")
+    old = log.level
+    try:
+        if i % 3 == 1:
+            log.setLevel(logging.CRITICAL)
+        elif i % 3 == 2:
+            log.setLevel(logging.DEBUG)
+        yield
+    finally:
+        log.setLevel(old)
+
+
 def quiet_pydrex():
     import logging
     import warnings
